@@ -386,3 +386,36 @@ def _clone(S, el):
     c = node(S, "clone", el.fields["namespace"], el.fields["name"])
     c.fields["attributes"] = el.fields["attributes"]
     return c
+
+
+@contract(TB + ".clearActiveFormattingElements")
+class ClearActiveFormattingElements:
+    """"clear the list of active formatting elements up to the last marker": pop entries until a marker has been popped"""
+    props = ("C01",)
+    modular = False
+
+    def inputs(S):
+        n = 1 + S.choice(4)
+        afe = [S.one_of(None, lambda i=i: node(S, "f%d" % i, T.HTML)) for i in range(n)]
+        tb = builder(S)
+        tb.fields["activeFormattingElements"] = S.list(afe)
+        return dict(self=tb, before=S.list(list(afe)))
+
+    @ensures("C01")
+    @bounded("non-empty lists of at most 4 entries, each a marker or an element")
+    def pops_through_the_last_marker(self, before):
+        last = -1
+        for i in range(len(before)):
+            if before[i] is None:
+                last = i
+        keep = last if last >= 0 else 0
+        afe = self.activeFormattingElements
+        if len(afe) != keep:
+            return False
+        for i in range(keep):
+            if before[i] is None:
+                if afe[i] is not None:
+                    return False
+            elif not same_object(afe[i], before[i]):
+                return False
+        return True
